@@ -172,7 +172,8 @@ def gen_text(rng, d, perr):
     if d <= 0 or rng.random() < 0.4:
         if rng.random() < perr:
             return gen_err(rng, d)
-        return ('blank',) if rng.random() < 0.12 else ('text', rng.choice(['a', 'b', '', 'xy']))     # blank joins as nothing
+        # blank joins as nothing; a text that SPELLS an error code is a text, not an error
+        return ('blank',) if rng.random() < 0.12 else ('text', rng.choice(['a', 'b', '', 'xy', 'a', 'b', '#N/A', '#DIV/0!', '#VALUE!', '#ERROR!']))
     k = rng.randrange(3)
     if k == 0:
         return ('bin', 1, 0, gen_text(rng, d - 1, perr), gen_text(rng, d - 1, perr))
@@ -301,7 +302,29 @@ def check_literal(c):
     return [] if got == (code, None) else [(f, None, (code, None), got)]
 
 
-CHECKERS = {'operator': check_operator, 'trap': check_trap, 'literal': check_literal}
+NONERRORS = ['"#N/A"', '"#DIV/0!"', '"#NAME?"', '"#NULL!"', '"#NUM!"', '"#REF!"', '"#VALUE!"', '"#ERROR!"', '"#GETTING_DATA"', '"#N"&"/A"', 'T("#N/A")',
+             'IF(TRUE,"#N/A",1)', 'txtna', '0', 'NULL', 'FALSE', '""', '"NA()"', '7', 'IDENT("#REF!")', 'IFERROR(1/0,"#DIV/0!")']
+
+
+def check_nonerror(i):
+    """a value that is not an error - in particular a text spelling an error code - is not an error for any trap"""
+    x = NONERRORS[i]
+    p = make_parser()
+    p.set_variable('txtna', '#N/A')
+    own = rec(p, x)
+    out = []
+    if own[0] is not None:
+        return [(x, None, 'a value', own)]
+    for f, want in (('ISERROR(%s)' % x, (None, False)), ('ISERR(%s)' % x, (None, False)), ('ISNA(%s)' % x, (None, False)),
+                    ('IFERROR(%s,"trapped")' % x, own), ('IFNA(%s,"trapped")' % x, own), ('ERROR.TYPE(%s)' % x, ('#N/A', None)),
+                    ('ISERROR(%s)=OR(ISERR(%s),ISNA(%s))' % (x, x, x), (None, True))):
+        got = rec(p, f)
+        if got != want or type(got[1]) is not type(want[1]):
+            out.append((f, None, want, got))
+    return out
+
+
+CHECKERS = {'operator': check_operator, 'trap': check_trap, 'literal': check_literal, 'nonerror': check_nonerror}
 
 
 def check_case(case):
@@ -371,6 +394,7 @@ def explore(ctx):
                     work.append(('trap', (code, kind, depth, seq)))
         for c in range(14):
             work.append(('literal', (code, c)))
+    work += [('nonerror', i) for i in range(len(NONERRORS))]
     for vs in pmap(_worker, work):
         for (k, c, w, cls, e, g) in vs:
             R.violate({k: c}, w, cls, repr(e), repr(g))
@@ -399,6 +423,7 @@ def search(ctx, proof, res):
                     work.append(('trap', (code, kind, depth, tuple(rng.randrange(7) for _ in range(5)))))
         for c in range(14):
             work.append(('literal', (code, c)))
+    work += [('nonerror', i) for i in range(len(NONERRORS))]
     for vs in pmap(_worker, work):
         for (k, c, w, cls, e, g) in vs:
             R.violate({k: c}, w, cls, repr(e), repr(g))
